@@ -233,6 +233,39 @@ func initIntrinsics() {
 			vc.written[key] = true
 			return Val{K: VStruct}
 		}}
+	unm := &intrinsic{doc: "proto.Unmarshal(b, m): never panics; returns an error or overwrites the fields of the message m (a pointer to a struct) with arbitrary values of their types; nothing else changes",
+		mods: func(vc *VC, c *ssa.CallCommon, ms *modSet) {
+			if mi, ok := c.Args[1].(*ssa.MakeInterface); ok {
+				if st, ok := isPointerToStruct(mi.X.Type()); ok {
+					heapKeysOfStore("", st, ms.heap)
+					ms.allocKeys["E$uint8"] = true
+					return
+				}
+			}
+			ms.all = true
+		},
+		exec: func(vc *VC, fr *frame, st *State, c *ssa.CallCommon, args []Val, rt types.Type, pos token.Pos) Val {
+			mi, ok := c.Args[1].(*ssa.MakeInterface)
+			var sT types.Type
+			if ok {
+				sT, ok = isPointerToStruct(mi.X.Type())
+			}
+			if !ok {
+				vc.note("proto.Unmarshal into a message of unknown type: everything havocked")
+				vc.havocAllHeap(st, "unmarshal")
+				return vc.freshVal(st, rt, "unmarshal.err")
+			}
+			ref := vc.asInt(vc.operand(fr, st, mi.X))
+			a := vc.allocCounter(st)
+			na := vc.P.Fresh("$A@unmarshal", SInt)
+			vc.assume(st, vc.P.Le(a, na))
+			st.heap[allocKey] = na
+			vc.storeStruct(st, ref, sT, vc.freshVal(st, sT, "unmarshalled"))
+			return vc.freshVal(st, rt, "unmarshal.err")
+		}}
+	t["google.golang.org/protobuf/proto.Unmarshal"] = unm
+	t["github.com/gogo/protobuf/proto.Unmarshal"] = unm
+	t["github.com/golang/protobuf/proto.Unmarshal"] = unm
 	intrinsicTab = t
 }
 
